@@ -67,7 +67,7 @@ class ListProperty(PropertyProtocol):
                 schemas,
             )
 
-        items = data.prefixItems or []
+        items = list(data.prefixItems or [])  # a copy: the schema may be built again (shared parameters, retries)
         if data.items:
             items.append(data.items)
 
